@@ -94,6 +94,7 @@ CAL_LEMMA = vf.apalache_leg('CalendarLemma', 'Inv', 0, 'Ordinal(next day) = Ordi
 
 PLANS = {
     'C01': {
+        'level_text': 'Bounded-exhaustive on the specification (18 boundary years x every day x 2 formats x 8 limits; Apalache lemma on Ordinal for all years) plus TLC trace validation of one event per date carrying all 10 output paths and 10 input-path results; thorough covers all 3,652,425 dates of 0000-9999 as a day-consecutive chain. Model checking is the right level: the property is a universally quantified equation between a constructive formatter and a declarative parser, and the finite calendar can be enumerated completely.',
         'mc': [{'module': 'MC_C01', 'what': '18 boundary years x every day x {ext,basic} x 8 limits: Parse(Fmt(d)) = d, canonical shape, Ordinal counts days'}],
         'drivers': [{'name': 'c01', 'shards': 8, 'tiers': {'thorough': {'shards': 16}}}],
         'legs': [CAL_LEMMA],
@@ -105,6 +106,7 @@ PLANS = {
         'assumptions': COMMON_ASSUMPTIONS,
     },
     'C09': {
+        'level_text': 'Complete function graph: TLC enumerates ~4 M (thorough ~20 M) strings over {0,1,2,3,9,-}, evaluates the declarative date language and looks each point up in the recorded graph of DefaultParser; MM x DD grids in 4 separator layouts, all 256 byte values at every position of valid texts, rule x limit x type sweeps by trace validation.',
         'mc': [],
         'legs': [vf.graph_leg('g09', 'Graph_C09', {'quick': {'GRAPH_MAXLEN': '8'}, 'thorough': {'GRAPH_MAXLEN': '9'}}, g09_events,
                               'every string over {0,1,2,3,9,-} up to length 8 (thorough 9) + extensions of "20" to length 10: '
@@ -119,6 +121,7 @@ PLANS = {
         'assumptions': COMMON_ASSUMPTIONS,
     },
     'C11': {
+        'level_text': "Decoder strictness model-checked over all 65,536 (month, day) bytes x 6 years x versions x lengths; Apalache proves the year-byte round trip for all years; real code judged on encode+decode of every date of a year range (thorough -400..9999), the decode grid, every century year's month ends, versions, lengths, random bytes, and stability of the encoding when the caller overwrites a returned slice.",
         'mc': [{'module': 'MC_C11', 'what': 'all 65536 (month,day) bytes x 6 years x versions x lengths: decode is strict; Decode(Encode(d)) = d'}],
         'drivers': [{'name': 'c11', 'shards': 8}],
         'legs': [CAL_LEMMA],
@@ -127,6 +130,7 @@ PLANS = {
         'assumptions': COMMON_ASSUMPTIONS,
     },
     'C07': {
+        'level_text': 'Order/arithmetic laws model-checked on boundary dates; Apalache proves Ordinal(next day) = Ordinal + 1 for all years; real code judged on every adjacent pair (thorough: of the whole calendar), all pairs of a boundary set, Add grids incl. every single-component step from every month end of 60 boundary years, AddDuration around multiples of 24 h, Time/FromTime over 16 zones.',
         'mc': [{'module': 'MC_C07', 'what': 'order laws, Ordinal monotone, Normalize idempotent on boundary years'}],
         'drivers': [{'name': 'c07', 'shards': 8, 'tiers': {'thorough': {'shards': 16}}}],
         'legs': [CAL_LEMMA],
@@ -135,6 +139,7 @@ PLANS = {
         'assumptions': COMMON_ASSUMPTIONS,
     },
     'C15': {
+        'level_text': "The filter state machine (caller variables, build, probe) is model-checked exhaustively over a window crossing leap day, month end and year end, with a history variable proving that filters keep build-time bounds and that the five implementation shapes equal the interval predicate; the real code is stepped through the same histories (all bound pairs of a 60-date window x every probe, mutation of the caller's variables after construction).",
         'mc': [{'module': 'MC_C15', 'what': 'filter state machine: build, mutate caller variables, probe; inclusive-interval invariant'}],
         'drivers': [{'name': 'c15', 'shards': 8}],
         'codes': ['C15.'],
@@ -142,6 +147,7 @@ PLANS = {
         'assumptions': COMMON_ASSUMPTIONS,
     },
     'C02': {
+        'level_text': 'Specification checked for every n <= 1999 (thorough 4999) x 128 flag sets (formatter by rule vs two parser definitions); real code judged by TLC on one event per n holding the outputs, parse-backs and Valid results of all 128 flag subsets; thorough covers every n in [0,130000]. Complete enumeration of the stated quantifier, hence model checking.',
         'mc': [{'module': 'MC_C02', 'what': 'n <= NMax x 128 flag sets: RomanValue(FmtRoman(n,f)) = n by both parser definitions, canonical form laws',
                 'tiers': {'quick': {'env': {'MC_NMAX': '1999'}}, 'thorough': {'env': {'MC_NMAX': '4999'}}}}],
         'drivers': [{'name': 'c02', 'shards': 8, 'per': 4000, 'tiers': {'thorough': {'shards': 16, 'per': 3000}}}],
@@ -153,6 +159,7 @@ PLANS = {
         'assumptions': COMMON_ASSUMPTIONS,
     },
     'C10': {
+        'level_text': 'Complete function graph over every letter string up to length 7 (thorough 8) with case variants, []byte, Valid, UnmarshalText compared (anomalies must be empty); two parser definitions agree and the parse is unambiguous (MC); foreign bytes, case patterns, limits by trace validation.',
         'legs': [vf.graph_leg('g10', 'Graph_C10', {'quick': {'GRAPH_MAXLEN': '7'}, 'thorough': {'GRAPH_MAXLEN': '8'}}, g10_events,
                               'every string over {I,V,X,L,C,D,M} up to length 7 (thorough 8): accepted <=> in the group language, value = sum of groups; '
                               'lower/mixed case, []byte, Valid, UnmarshalText agree (anomalies empty); MC_C10: two parser definitions agree, parse unambiguous',
@@ -165,6 +172,7 @@ PLANS = {
         'assumptions': COMMON_ASSUMPTIONS,
     },
     'C05': {
+        'level_text': 'Specification: positional parser = declarative variant reading for every position x 26 boundary bytes x 4 rules x 4 text forms; real code: every nibble value at every position, all 256 byte values at each of the 36/45 positions, insertions, deletions, limits, accessors, judged by TLC. The single-position sweeps of the property are enumerated completely.',
         'mc': [{'module': 'MC_C05', 'what': '3 background IDs x 4 text forms x every position x 26 boundary bytes x 4 rules: positional parser = declarative variant reading; round trips'}],
         'drivers': [{'name': 'c05', 'shards': 8}],
         'codes': ['C05.'],
@@ -173,6 +181,7 @@ PLANS = {
         'assumptions': COMMON_ASSUMPTIONS,
     },
     'C03': {
+        'level_text': 'Complete function graph: TLC enumerates every string over 9 symbols up to length 6 (thorough 7), evaluates the BNF twice (split-based and scanner) and compares acceptance mask and value of 5 entry points x string/[]byte with the graph recorded from the code; grammar-generated and mutated long versions and the Valid<=>round-trip link by trace validation. Exhaustive within the bound, sampled beyond it.',
         'legs': [vf.graph_leg('g03', 'Graph_C03', {'quick': {'GRAPH_MAXLEN': '6'}, 'thorough': {'GRAPH_MAXLEN': '7'}}, g03_events,
                               'every string over {0,1,9,a,Z,-,.,+,v} up to length 6 (thorough 7) x 5 entry points x {string,[]byte} + UnmarshalText: '
                               'acceptance mask and value = SemVer grammar with form gating; MC_C03: split-based grammar = scanner, accepted text reproduced by formatting',
@@ -185,6 +194,7 @@ PLANS = {
         'assumptions': COMMON_ASSUMPTIONS,
     },
     'C06': {
+        'level_text': 'The section-11 order is model-checked as a total order on the universe of all valid pre-release strings up to length 2 (thorough 3) including transitivity over all triples and the SemVer example chain; the real comparator is judged on ALL ordered pairs of the universe up to length 3 + hand-picked identifiers (thorough: length 4, 11.5 M pairs) through every entry point, outside the pinned departure class only.',
         'mc': [{'module': 'MC_C06', 'what': 'section-11 order on the universe U_K: total order laws incl. transitivity over all triples, SemVer example chain, departure class symmetric',
                 'tiers': {'quick': {'env': {'MC_K': '2'}}, 'thorough': {'env': {'MC_K': '3'}}}}],
         'drivers': [{'name': 'c06', 'shards': 8, 'per': 3000}],
@@ -195,6 +205,7 @@ PLANS = {
         'assumptions': COMMON_ASSUMPTIONS,
     },
     'C14': {
+        'level_text': 'Coherence laws (sign, antisymmetry, reflexivity, build ignored, equal => 0, latest never the lower, helpers = compare of parsed values and error iff a text is invalid for the helper, Next* strictly above and panic iff 2^64-1) judged by TLC on all ordered pairs of the universe in both directions, full-range cores incl. differences of exactly 2^63, raw-text helper pairs incl. identical invalid operands.',
         'mc': [{'module': 'MC_C06', 'what': 'order laws of the reference comparison (shared with C06)',
                 'tiers': {'quick': {'env': {'MC_K': '2'}}, 'thorough': {'env': {'MC_K': '3'}}}}],
         'drivers': [{'name': 'c06', 'shards': 8, 'per': 3000}, {'name': 'c14', 'shards': 4}],
@@ -204,6 +215,7 @@ PLANS = {
         'assumptions': COMMON_ASSUMPTIONS,
     },
     'C04': {
+        'level_text': 'TLC judges one event per (size, switch configuration) with every marshal form and every unmarshal path; the outputs must also mean the size under the SPECIFIED grammar (BigDec exact arithmetic), so mutually compensating formatter/parser errors are caught. Values are stratified (all 64 trailing-zero counts, 20 decimal lengths, unit neighbourhoods, all n < 2^12 / 2^20) x 8 configurations.',
         'mc': [{'module': 'MC_Size', 'what': 'BigDec homomorphism; Shorten exact and maximal; renderings parse back under the text grammar; unit products; separators never change the value'}],
         'drivers': [{'name': 'c04', 'shards': 8, 'per': 8000, 'tiers': {'thorough': {'shards': 16}}}],
         'codes': ['C04.'],
@@ -213,6 +225,7 @@ PLANS = {
         'assumptions': COMMON_ASSUMPTIONS,
     },
     'C13': {
+        'level_text': 'Shorten exactness and maximality and the grouping shape model-checked on odd x 2^k for every k; real code judged on all n < 2^14 (thorough 2^20), strata and random values for Shorten, String, PrettyString, PrettyHTML with BigDec-exact expectations.',
         'mc': [{'module': 'MC_Size', 'what': 'Shorten exact and maximal, grouping in threes from the right, on odd x 2^k for every k and boundary values'}],
         'drivers': [{'name': 'c13', 'shards': 8, 'per': 8000, 'tiers': {'thorough': {'shards': 16}}}],
         'codes': ['C13.'],
@@ -221,6 +234,7 @@ PLANS = {
         'assumptions': COMMON_ASSUMPTIONS,
     },
     'C08': {
+        'level_text': 'Exact BigDec arithmetic in the specification (unit laws model-checked); real code judged on text parsing around floor((2^64-1)/multiplier) for all 18 units, every separator placement of the grammar, New over 18 numeric kinds with exact classes from math/big, Bytes over 18 kinds at mantissa and type boundaries.',
         'mc': [{'module': 'MC_Size', 'what': 'for every unit: accepted <=> value x multiplier < 2^64, zero-only units, separators never change the value, RuleDisableUnit'}],
         'drivers': [{'name': 'c08', 'shards': 8, 'per': 20000}],
         'codes': ['C08.'],
@@ -230,6 +244,7 @@ PLANS = {
         'assumptions': COMMON_ASSUMPTIONS + ['the class (integer / negative / fraction / NaN / Inf) and digits of a Go numeric argument are computed by the harness with math/big'],
     },
     'C12': {
+        'level_text': 'Two-layer specification: Ref (outcome as a function of the multiset of members) is order independent by construction and checked under all adjacent transpositions; Impl (the key loop) refines Ref for every object of <= 3 (thorough 4) members x 8 rules x 5 limits; real code judged against Ref on generated documents incl. every truncation and trailing bytes, with the abstract document derived by encoding/json.',
         'mc': [{'module': 'MC_C12', 'what': 'all objects of <= 3 (thorough 4) members from 11 member kinds in every order x 8 rules x 5 limits: Ref is order independent; the key-loop model (Impl) refines Ref; limit rule',
                 'tiers': {'quick': {'env': {'MC_MEMBERS': '3'}}, 'thorough': {'env': {'MC_MEMBERS': '4'}}}}],
         'drivers': [{'name': 'c12', 'shards': 8, 'per': 6000, 'tiers': {'thorough': {'per': 40000}}}],
@@ -240,6 +255,7 @@ PLANS = {
         'assumptions': COMMON_ASSUMPTIONS + ['the abstract JSON document and well-formedness of an input are derived by the harness with encoding/json (json.Valid, Decoder tokens), as the property prescribes'],
     },
     'C16': {
+        'level_text': 'A Go-slice model (heap, in-place append vs reallocation) shows the frame condition for append-only writers and a negative control breaking it; the real formatters are judged on prefixes from every byte value and from their own output alphabet, spare capacity 0..64, every flag subset, with the nil-buffer output logged in the same event.',
         'mc': [{'module': 'MC_C16', 'what': 'Go slice model: an append-only writer satisfies the frame condition for every prefix/spare capacity/output (<= 3 each); a whole-buffer post-processing writer (negative control) breaks it'}],
         'drivers': [{'name': 'c16', 'shards': 8}],
         'codes': ['C16.'],
@@ -248,6 +264,7 @@ PLANS = {
         'assumptions': COMMON_ASSUMPTIONS,
     },
     'C17': {
+        'level_text': 'Generic receiver machine model-checked with action properties (a failing call changes nothing, scribbling changes nothing); Util.tla composes the five package machines (Isolation, KeepOnFail checked exhaustively to depth 3/4) and its simulated behaviours are replayed on persistent real receivers; seeded histories and string/bytes twins judged by TLC.',
         'pre': [gen_util_behaviours],
         'drivers': [{'name': 'c17', 'shards': 8}, {'name': 'util', 'shards': 4, 'per': 6000}, {'name': 'ovr', 'shards': 1}],
         'mc': [UTIL_MC, {'module': 'MC_C17', 'what': 'generic receiver machine: 3 parsable / 3 unparsable inputs, histories to depth 5: a failing call never changes the receiver, scribbling the input never changes earlier results'}],
@@ -257,6 +274,7 @@ PLANS = {
         'assumptions': COMMON_ASSUMPTIONS,
     },
     'C18': {
+        'level_text': 'The limit gate is model-checked for the five reference parsers; every parsing/validating/comparing entry point is driven with seeded random and structured bytes (invalid UTF-8, NUL, BOM, long runs), the full limit matrix, form prefixes at limit+1 and non-ASCII bytes at every position; demands: no panic, too-long <=> over the limit, no echo of the input.',
         'pre': [gen_util_behaviours],
         'drivers': [{'name': 'c18', 'shards': 8, 'per': 8000}, {'name': 'util', 'shards': 4, 'per': 6000}],
         'mc': [UTIL_MC, {'module': 'MC_C18', 'what': 'limit gate shared by the five parsers: maxLen x input length grid'}],
@@ -266,6 +284,7 @@ PLANS = {
         'assumptions': COMMON_ASSUMPTIONS + ['coverage-guided native fuzzing is not part of this technique: inputs are seeded and structured; allocation is not measured'],
     },
     'C19': {
+        'level_text': 'UURandom (Lock; Draw; Draw; Unlock; Compose) model-checked for 3 goroutines x 2 calls in every interleaving with a lock-free negative control; Apalache proves the mask lemma for all 2^126 draw pairs; hook traces of 12 concurrent configurations are validated against the lock protocol, Compose, version/variant, distinctness and per-bit coverage; the harness runs under the race detector.',
         'race': True,
         'mc': [{'module': 'MC_C19', 'what': 'UURandom: 3 goroutines x 2 calls, all interleavings: mutual exclusion, consecutive draws, no sharing; liveness AllDone'},
                {'module': 'MC_C19', 'cfg': 'MC_C19_nolock', 'expect_violation': 'Consecutive', 'what': 'negative control: without the lock TLC finds interleaved draws'}],
@@ -279,6 +298,7 @@ PLANS = {
                                              'schedules are those the Go scheduler produced in this run (GOMAXPROCS 1..16, yields in the critical section); they are not enumerated'],
     },
     'C20': {
+        'level_text': 'The helpers are specified as an interpreter (CaseFails); TLC enumerates every single test case and all pairs over a reduced alphabet as programs, the harness instantiates them on the real helpers with a recording TestingT, and TLC judges the recorded verdicts; the one deviation of the library is modelled by name and reported as a known finding.',
         'pre': [gen_c20_vectors],
         'drivers': [{'name': 'c20', 'shards': 8, 'per': 20000}],
         'codes': ['C20.'],
